@@ -625,6 +625,11 @@ def run_history(ctx, h, acc):
             hooks.sidx = mc.server_number(g)
             try:
                 writer, reader = g.clients
+
+                def W(d):
+                    # an operation of these histories needs a few thousand scheduler steps; a livelock in the code under
+                    # test (seen: Retrieve re-trying one corrupt share for ever) must cost seconds, not the pump's 2M steps
+                    return rt.wait(d, max_steps=rt.steps + 150000)
                 registry = {}      # (seqnum, root_hash) -> content
                 snaps = []         # share-file snapshots taken before each publish
                 node = rnode = None
@@ -675,7 +680,7 @@ def run_history(ctx, h, acc):
                     ctx.count("grid-step:" + kind)
                     hooks.op_start = len(hooks.final_maps)
                     if kind == "create":
-                        node = rt.wait(writer.create_mutable_file(
+                        node = W(writer.create_mutable_file(
                             MutableData(content_of(step[1])), version=MDMF_VERSION if h["fmt"] == "m" else SDMF_VERSION,
                             unique_keypair=mc.keypair()))
                         settle_publishes()
@@ -698,11 +703,11 @@ def run_history(ctx, h, acc):
                         npub = len(hooks.publishes)
                         try:
                             if kind == "pub":
-                                rt.wait(node.overwrite(MutableData(content_of(step[1]))))
+                                W(node.overwrite(MutableData(content_of(step[1]))))
                             else:
-                                mv = rt.wait(node.get_best_mutable_version())
+                                mv = W(node.get_best_mutable_version())
                                 off = min(step[2], mv.get_size())
-                                rt.wait(mv.update(MutableData(bytes.fromhex(step[1])), off))
+                                W(mv.update(MutableData(bytes.fromhex(step[1])), off))
                             ctx.count("grid-publish-ok")
                             ok = True
                         except grid.Stuck:
@@ -735,7 +740,7 @@ def run_history(ctx, h, acc):
                             g.broker.servers.remove(gs)
                         npub = len(hooks.publishes)
                         try:
-                            rt.wait(node.overwrite(MutableData(content_of(step[1]))))
+                            W(node.overwrite(MutableData(content_of(step[1]))))
                             ctx.count("grid-away-pub-ok")
                             ok = True
                         except grid.Stuck:
@@ -754,10 +759,10 @@ def run_history(ctx, h, acc):
                         snaps.append(mc.snapshot_files(g, si))
                         npub = len(hooks.publishes)
                         try:
-                            mv = rt.wait(node.get_best_mutable_version())
-                            rt.wait(mv.overwrite(MutableData(bytes.fromhex(step[1]))))
+                            mv = W(node.get_best_mutable_version())
+                            W(mv.overwrite(MutableData(bytes.fromhex(step[1]))))
                             set_down(step[3])
-                            rt.wait(mv.modify(lambda old, smap, first, _t=b"+" + bytes.fromhex(step[2]): old + _t))
+                            W(mv.modify(lambda old, smap, first, _t=b"+" + bytes.fromhex(step[2]): old + _t))
                             ctx.count("grid-overwrite-then-modify-ok")
                         except grid.Stuck:
                             raise
@@ -790,16 +795,16 @@ def run_history(ctx, h, acc):
                         try:
                             if kind == "modify":
                                 install_counting_faults()
-                                rt.wait(node.modify(lambda old, smap, first, _t=token: old + _t))
+                                W(node.modify(lambda old, smap, first, _t=token: old + _t))
                             else:
                                 # pass 1 with one availability pattern, the rest of the operation with the other
                                 set_down([srv for srv, (mode, _n) in flaky.items() if mode == "fail-then-ok"])
-                                mv = rt.wait(node.get_best_mutable_version())
+                                mv = W(node.get_best_mutable_version())
                                 set_down([srv for srv, (mode, _n) in flaky.items() if mode == "ok-then-fail"])
                                 if kind == "modify-split":
-                                    rt.wait(mv.modify(lambda old, smap, first, _t=token: old + _t))
+                                    W(mv.modify(lambda old, smap, first, _t=token: old + _t))
                                 else:
-                                    rt.wait(mv.update(MutableData(token), mv.get_size()))
+                                    W(mv.update(MutableData(token), mv.get_size()))
                             ctx.count("grid-%s-ok" % kind)
                             ok = True
                         except grid.Stuck:
@@ -842,7 +847,7 @@ def run_history(ctx, h, acc):
                                 g.wrappers[perm[int(pos)]].fault = fault
                         nfinal = len(hooks.final_maps)
                         try:
-                            data = rt.wait(rnode.download_best_version())
+                            data = W(rnode.download_best_version())
                             err = None
                         except grid.Stuck:
                             raise
